@@ -19,7 +19,7 @@ CONSTANTS Codecs,       \* subset of {"bolt","boltv2","dubbo","dubbothrift","tar
           DefClass, DefVal, DefBody, DefSvc,        \* the unremarkable value of each dimension
           StarK,        \* at most StarK dimensions of a received frame are off their unremarkable value
           MaxPairs,     \* header pairs in a received frame
-          Fills,        \* value classes of the fixed fields: "zero", "ones", "rand"
+          Fills,        \* value classes of the fixed fields: "zero", "ones", "rand" (anything but "rand" counts as a dimension off its unremarkable value)
           MutVals, MutBodies, FillTargets,          \* arguments of mutations; FillTargets = header block lengths to hit exactly
           IdFirst, IdSecond,                        \* request-id classes of the first / second forward: "same","new","zero","max"
           MaxMut, MaxFwd, MaxOps,
@@ -85,7 +85,7 @@ Init == /\ codec \in Codecs /\ dir \in Dirs /\ HasDir(codec, dir) /\ fill \in Fi
         /\ recvd \in Shapes(codec)
         /\ \A i \in DOMAIN recvd.hdrs : recvd.hdrs[i].vl >= 0
         /\ RepresentableIn(recvd, LayoutOf(codec, dir))
-        /\ OffDefault(codec, recvd) <= StarK
+        /\ OffDefault(codec, recvd) + B(fill # "rand") <= StarK
         /\ content = recvd /\ touched = FALSE /\ dirtyH = FALSE /\ dirtyB = FALSE
         /\ rawtok = "orig" /\ rbuf = "orig" /\ out = NoOut /\ hist = <<>>
 
